@@ -2,6 +2,8 @@
 //! An aid, never the decider: it only determines whether a VIOLATION line carries a replayable
 //! input or the `no-failing-input-found` suffix.
 mod fmt;
+mod more;
+mod reg;
 
 fn main() {
     let args: Vec<String> = std::env::args().collect();
@@ -9,6 +11,13 @@ fn main() {
         Some("fmt-search") => fmt::search(args.get(2).and_then(|s| s.parse().ok()).unwrap_or(6), args.get(3).and_then(|s| s.parse().ok()).unwrap_or(0)),
         Some("fmt-one") => fmt::one(&args[2]),
         Some("fmt-repeat") => fmt::repeat(&args[2], args[3].parse().unwrap()),
+        Some("c08-reach") => more::c08_reach(),
+        Some("c08-compactas") => more::c08_compactas(),
+        Some("c10-sanity") => more::c10_sanity(),
+        Some("c10-resolve") => more::c10_resolve(),
+        Some("c11-contains") => more::c11_contains(),
+        Some("c12-primex") => more::c12_primex(args.get(2).and_then(|s| s.parse().ok()).unwrap_or(200), args.get(3).and_then(|s| s.parse().ok())),
+        Some("c13-primnames") => more::c13_primnames(),
         _ => {
             eprintln!("usage: vreplay fmt-search <maxlen> <seed> | fmt-one <string> | fmt-repeat <string> <count>");
             2
